@@ -72,3 +72,58 @@ pub fn acronyms(_req: &Value) -> Value {
     let probe = ["API", "ID", "HTTP", "URL", "FOO"];
     json!({"ok": probe.iter().map(|p| set.is_acronym(p)).collect::<Vec<_>>()})
 }
+
+// ---- compound matcher / coercion / case constraints (C06, C07)
+fn styles_of(req: &Value) -> Vec<Style> {
+    match req.get("styles").and_then(|a| a.as_array()) {
+        Some(a) => a.iter().filter_map(|x| x.as_str().and_then(style_from)).collect(),
+        None => Style::all_styles(),
+    }
+}
+
+pub fn compound_variants(req: &Value) -> Value {
+    let Some(id) = str_field(req, "identifier") else { return json!({"skip": "utf8"}) };
+    let Some(search) = str_field(req, "search") else { return json!({"skip": "utf8"}) };
+    let Some(replace) = str_field(req, "replace") else { return json!({"skip": "utf8"}) };
+    let styles = styles_of(req);
+    let ms = renamify_core::compound_matcher::find_compound_variants(&id, &search, &replace, &styles);
+    let v: Vec<Value> = ms
+        .iter()
+        .map(|m| json!({"full": hex(m.full_identifier.as_bytes()), "replacement": hex(m.replacement.as_bytes()),
+                        "style": format!("{:?}", m.style), "start": m.pattern_start, "end": m.pattern_end}))
+        .collect();
+    json!({"ok": v})
+}
+
+pub fn apply_coercion(req: &Value) -> Value {
+    let Some(c) = str_field(req, "container") else { return json!({"skip": "utf8"}) };
+    let Some(o) = str_field(req, "old") else { return json!({"skip": "utf8"}) };
+    let Some(n) = str_field(req, "new") else { return json!({"skip": "utf8"}) };
+    match renamify_core::coercion::apply_coercion(&c, &o, &n) {
+        Some((s, why)) => json!({"ok": {"some": hex(s.as_bytes()), "why": why}}),
+        None => json!({"ok": "none"}),
+    }
+}
+
+pub fn coercion_detect(req: &Value) -> Value {
+    let Some(s) = str_field(req, "s") else { return json!({"skip": "utf8"}) };
+    json!({"ok": format!("{:?}", renamify_core::coercion::detect_style(&s))})
+}
+
+pub fn constraints(req: &Value) -> Value {
+    let Some(s) = str_field(req, "s") else { return json!({"skip": "utf8"}) };
+    let styles = styles_of(req);
+    let comp: Vec<String> = renamify_core::case_constraints::filter_compatible_styles(&s, &styles)
+        .iter()
+        .map(|x| format!("{:?}", x))
+        .collect();
+    json!({"ok": {"compatible": comp, "ambiguous": renamify_core::ambiguity::is_ambiguous(&s, &styles)}})
+}
+
+pub fn identifiers(req: &Value) -> Value {
+    let content = crate::util::hex_field(req, "content");
+    let styles = styles_of(req);
+    let ex = renamify_core::compound_scanner::IdentifierExtractor::new(&styles);
+    let v: Vec<Value> = ex.find_all(&content).iter().map(|(a, b, s)| json!([a, b, hex(s.as_bytes())])).collect();
+    json!({"ok": v})
+}
